@@ -16,3 +16,10 @@ package infer
 //@   ensures [explicit-schema-unchanged] outputSchema != nil ==> result == outputSchema && result1 == nil
 //@   ensures [inferred-error-flag-iff-named-error] outputSchema == nil && result1 == nil ==> result != nil && result.ErrorValue == (outputID == "error")
 //@   ensures [schema-or-error] (result1 == nil) != (result == nil)
+//
+// The package-level random source is shared by every preparation; *rand.Rand is not safe for
+// concurrent use, so it is used only with its lock held.
+//@ func generateRandomObjectID
+//@   requires nolocks()
+//@   site call Intn#1 assert [the-shared-random-source-is-used-under-its-lock] held(objectIDRandomLock)
+//@   ensures nolocks()
